@@ -87,7 +87,7 @@ func allocDelta(f func()) uint64 {
 
 // c42Known: listed known findings of C42 with their narrow predicates.
 type c42Known struct {
-	fc8, fc9, fc10, fc16 bool
+	fc8, fc9, fc10, fc16, fc17 bool
 }
 
 func (k c42Known) excluded(v cadence.Value, static cadence.Type, in *vgen.Info) string {
@@ -100,6 +100,8 @@ func (k c42Known) excluded(v cadence.Value, static cadence.Type, in *vgen.Info) 
 		return "FC10"
 	case k.fc16 && attachmentBaseCycle(v):
 		return "FC16"
+	case k.fc17 && ccfCovariantContainer(v, static):
+		return "FC17"
 	}
 	return ""
 }
@@ -258,6 +260,92 @@ func hasDuplicateParameterLabels(v cadence.Value) bool {
 	return found
 }
 
+// fc17StillFails re-runs FC17's repro: [[1] : [Int]] : [[AnyStruct]].
+func fc17StillFails() bool {
+	inner := cadence.NewArray([]cadence.Value{cadence.NewInt(1)}).WithType(cadence.NewVariableSizedArrayType(cadence.IntType))
+	outer := cadence.NewArray([]cadence.Value{inner}).WithType(cadence.NewVariableSizedArrayType(cadence.NewVariableSizedArrayType(cadence.AnyStructType)))
+	e := ccfEncodeWith(ccfDefaultEnc, outer)
+	return e.err == nil && ccfDecodeWith(ccfDefaultDec, e.bytes).err != nil
+}
+
+// ccfCovariantContainer is the predicate of FC17: somewhere below another
+// container/composite an array or dictionary value sits in a position whose
+// static type is a concrete array/dictionary type (possibly optional / behind a
+// reference) that is not Equal to the value's own container type.
+func ccfCovariantContainer(v cadence.Value, static cadence.Type) bool {
+	peel := func(t cadence.Type) cadence.Type {
+		for {
+			switch x := t.(type) {
+			case *cadence.OptionalType:
+				t = x.Type
+			case *cadence.ReferenceType:
+				t = x.Type
+			default:
+				return t
+			}
+		}
+	}
+	mismatch := func(own cadence.Type) bool {
+		if own == nil || static == nil {
+			return false
+		}
+		switch s := peel(static).(type) {
+		case cadence.ArrayType:
+			return !s.Equal(own)
+		case *cadence.DictionaryType:
+			return !s.Equal(own)
+		}
+		return false
+	}
+	switch x := v.(type) {
+	case cadence.Optional:
+		if x.Value == nil {
+			return false
+		}
+		st := static
+		if o, ok := static.(*cadence.OptionalType); ok {
+			st = o.Type
+		}
+		return ccfCovariantContainer(x.Value, st)
+	case cadence.Array:
+		if x.ArrayType == nil {
+			return false
+		}
+		if mismatch(x.ArrayType) {
+			return true
+		}
+		for _, e := range x.Values {
+			if ccfCovariantContainer(e, x.ArrayType.Element()) {
+				return true
+			}
+		}
+	case cadence.Dictionary:
+		if x.DictionaryType == nil {
+			return false
+		}
+		if mismatch(x.DictionaryType) {
+			return true
+		}
+		for _, p := range x.Pairs {
+			if ccfCovariantContainer(p.Key, x.DictionaryType.KeyType) || ccfCovariantContainer(p.Value, x.DictionaryType.ElementType) {
+				return true
+			}
+		}
+	case cadence.Composite:
+		fs := vgen.TypeFields(vgen.CompositeTypeOf(x))
+		for i, f := range vgen.FieldValues(x) {
+			var ft cadence.Type
+			if i < len(fs) {
+				ft = fs[i].Type
+			}
+			if ccfCovariantContainer(f, ft) {
+				return true
+			}
+		}
+	}
+	return false
+}
+
 // attachmentBaseCycle: some type value contains an attachment type whose base
 // type (transitively) mentions that attachment again (predicate of FC16).
 func attachmentBaseCycle(v cadence.Value) bool {
@@ -329,6 +417,10 @@ func reportC42Known(rec *evid.Rec) c42Known {
 			[]cadence.Parameter{{Identifier: "a", Type: cadence.IntType}, {Identifier: "b", Type: cadence.IntType}}, cadence.VoidType)
 		e := ccfEncodeWith(ccfDefaultEnc, cadence.NewTypeValue(ft))
 		rec.ReportKnown("FC9", e.err == nil && ccfDecodeWith(ccfDefaultDec, e.bytes).err != nil)
+	}
+	if rec.Known("FC17") {
+		k.fc17 = true
+		rec.ReportKnown("FC17", fc17StillFails())
 	}
 	if rec.Known("FC16") {
 		k.fc16 = true
